@@ -77,6 +77,32 @@ checks.update({
    note="In-process drivers mirror cli_def; runs whose decompile prints a loss warning are exempt and counted; one recorded known finding (conditional jump on two literals).",
    technique="bounded exhaustive enumeration of programs x configurations with a byte-identity round-trip oracle on the real compiler/decompiler"),
 })
+checks.update({
+ "C03": dict(level=MC, ref="DESIGN.md §4 C03",
+   text="For 15-17 format classes a complete valid base file is rendered and every on-disk field (instruction time/opcode/sizes/masks/arg0, sub-dword arguments, blob and string lengths, header fields, counts realised by generating that many items, ids, fixed strings) deviates one at a time (pairs in thorough) over a boundary set derived from its stored width; on success truth must re-read the file and every explicitly set field, read back through the independent M2 walkers, must equal the request; on failure an error diagnostic is required.",
+   note="M2 walkers trusted; a w-bit field is taken to hold [-2^(w-1), 2^w-1] modulo 2^w (signedness is display-only); fields with no slot in a format are reported as coverage, not violations.",
+   technique="bounded exhaustive enumeration of field x boundary-value deviations with read-back through an independent binary walker"),
+ "C04": dict(level="fault_enumeration", ref="DESIGN.md §4 C04",
+   text="30 valid seed sources across all tools/games and every single-token edit (delete/duplicate/swap/replace by interesting tokens), single-byte edit and truncation of them, extreme literals, nesting of every recursive construct to depth 256 (worker subprocesses with the CLI's 8 MiB stack), mapfile texts (all short signature strings, attribute edge cases, intrinsic strings, flag strings, enum sections) and later-stage faults alone and in pairs are compiled by the real pipeline; oracle: terminates, no panic/abort/stack overflow/memory blow-up, failure iff an error-severity diagnostic was rendered.",
+   note="Dev-profile semantics (overflow checks, debug assertions) define a panic; nesting beyond 256 is recorded as information only.",
+   technique="exhaustive fault enumeration (edit-distance-1 ball around seeds plus generated families) with worker-subprocess isolation"),
+ "C08": dict(level=MC, ref="DESIGN.md §4 C08",
+   text="(P) every generated text over the statement/expression/meta grammar (all operator pairs in both groupings, nested prefix operators, switches with holes, literals of every radix/class, escapes, calls with 0-12 arguments, metas 1-4 deep; bounded E-DFS) is parsed, printed at every width of the tier, re-parsed and compared by a canonical AST walk, and re-printed for idempotence; (D) decompiler ASTs for arbitrary argument bit patterns (via @blob and user signatures) are printed at every width, must parse to the same AST and recompile to the same bytes.",
+   note="Canonical AST comparison (harness) ignores spans/ids/display formats and folds unary minus on literals; two recorded known findings (NaN payloads, line break inside a label with a call).",
+   technique="bounded exhaustive enumeration of ASTs x widths with a parse/print round-trip oracle"),
+ "C16": dict(level="fault_enumeration", ref="DESIGN.md §4 C16",
+   text="55 seed binaries (compiler outputs for every format/game class and all bundled files) x truncation at every offset x every offset with 7 byte values x 13 boundary values on every field M2 identifies (header fields, table slots, instruction headers, argument dwords) x whole-table fills (thorough: all 256 byte values on small seeds, pairs of field faults, all option sets) are read, decompiled under several option sets and (ANM) extracted in worker subprocesses under an address-space limit; oracle: terminates, no panic/abort/timeout/memory blow-up, failure only with an error diagnostic naming the file.",
+   note="Worker isolation with replay-twice rule; CPU time rather than wall time decides 'slow'; known findings recorded for extraction errors that name the output image and for the uncapped output-image allocation.",
+   technique="exhaustive fault enumeration over compiler outputs and bundled files with worker-subprocess isolation"),
+ "C18": dict(level=MC, ref="DESIGN.md §4 C18",
+   text="Programs with varying instruction sizes, difficulty-replicated instructions, locals with sentinel initialisers in nested scopes, labels and time labels in every slot of 23+ skeletons, multi-script layouts and const sets (bounded E-DFS) are compiled with debug info for ANM, ECL, MSG and STD; every instruction offset, end offset, label offset and time (M3), local register (located via its sentinel in the written file) and const value (M6) in the JSON is compared with the binary as parsed by M2; a prefix of cases is also run through the real CLI and the JSON compared.",
+   note="M2/M3/M6 trusted; conventions pinned down in the evidence assumptions (offsets relative to the script's first instruction, end offset excludes the terminal).",
+   technique="bounded exhaustive enumeration of programs with cross-checking of the debug-info document against an independent parse of the written binary"),
+ "C20": dict(level=MC, ref="DESIGN.md §4 C20",
+   text="File layouts for ANM (1-3 entries x 0-3 sprites with 9 id patterns, names reused across entries, 1-3 scripts, 13 kinds of use site), MSG (tables with holes/defaults/shared scripts/table_len, all script orders), old ECL (1-4 subs, 0-3 timelines with every index pattern, 11 kinds of use site) and STD (objects x instances in every order) are enumerated; every id, argument dword, table offset and index in the written file (M2) is compared with the M9 id model; conflicting or dangling names must be errors.",
+   note="M9 (harness model from the property text) and M2 trusted; cases the documentation leaves open (which of several same-named sprites a reference means, negative ids, ...) are classified unspecified and only required not to crash.",
+   technique="bounded exhaustive enumeration of file layouts against a reference id model read back through an independent binary walker"),
+})
 pending = {}
 def main():
     try:
